@@ -82,6 +82,12 @@ def gen_policy(rng, uid, tag):
         # same scalar columns every time: successive versions under one uid differ in their elements only
         return Policy(uid, actions=[pick(rng, ['get', 'put', '<get|put>', 'del'])], subjects=[pick(rng, ['s1', 's<.*>', 's2'])],
                       resources=['r'], effect='allow', description='fixed'), False
+    if rng.random() < 0.06:
+        # an element longer than any column a relational schema declares for it (255 / 520 characters): SQLite keeps the whole
+        # text, the document and key-value stores have no width at all; what was written is what is read
+        long_ = pick(rng, ['g', 'ab', 'r/']) * rng.randint(130, 400)
+        return Policy(uid, actions=[long_, 'get'], subjects=['s<.*>' if rng.random() < 0.5 else long_ + '<.*>'],
+                      resources=['r'], effect=pick(rng, ['allow', 'deny']), description=desc), False
     if r < 0.35:
         return Policy(uid, actions=[pick(rng, ['get', '<get|put>', 'x'])], subjects=['s<.*>'], resources=['r'],
                       effect=pick(rng, ['allow', 'deny']), description=desc), False
